@@ -276,7 +276,7 @@ func (P) Generate(g *hx.Gen) {
 		blocks := 3 + g.Rng.Intn(g.Pick(4, 6))
 		conf := 0
 		txBlocks := 0
-		calls, priced := 0, 0
+		calls, priced, vcalls := 0, 0, 0
 		for b := 0; b < blocks; b++ {
 			ntx := g.Rng.Intn(5)
 			pendingOuts := []int{0, 0}
@@ -334,7 +334,19 @@ func (P) Generate(g *hx.Gen) {
 						if g.Rng.Intn(3) == 0 {
 							c = 255
 						}
-						ops = append(ops, fmt.Sprintf("call from=%d c=%d nonce=%d", from, c, nonce[from]))
+						op := fmt.Sprintf("call from=%d c=%d nonce=%d", from, c, nonce[from])
+						if g.Rng.Intn(3) == 0 {
+							// a call that carries value: the value stays with the contract when it succeeds and with the sender when it
+							// fails; half of them with a gas limit that covers the value-proportional transfer gas (so the
+							// transaction is admitted) but not transfer gas + intrinsic gas (so it fails before anything runs)
+							v := int64(1 + g.Rng.Intn(5000))
+							op += fmt.Sprintf(" value=%d", v)
+							if g.Rng.Intn(2) == 0 {
+								op += fmt.Sprintf(" gas=%d", appsim.CallTransferGas(v)+uint64(g.Rng.Int63n(int64(appsim.CallIntrinsicGas()))))
+							}
+							vcalls++
+						}
+						ops = append(ops, op)
 						nonce[from]++
 						calls++
 					case 2: // a gas price other than the fixed one must be refused (sender would pay gas*price, the collector get gas*par)
@@ -375,6 +387,9 @@ func (P) Generate(g *hx.Gen) {
 			ops = append(ops, "bal")
 		}
 		g.Count(fmt.Sprintf("mode:trie=%d", trie))
+		if vcalls > 0 {
+			g.Count("with-value-carrying-calls")
+		}
 		if calls > 0 {
 			g.Count("with-contract-calls")
 		}
